@@ -3,6 +3,7 @@ CONSTANTS
   Record = TRUE
   Scripts <- ScriptsS
   FaultChoices <- AnyFaults
+  RouteChoices <- SimRoutes
 CONSTRAINT ExportC
 INVARIANT EachOnce
 INVARIANT ReturnsAfterAll
